@@ -97,14 +97,21 @@ func c04Scenarios(tier string) []CScenario {
 // C04 explores interleavings and checks linearizability of every complete execution.
 func C04(tier string) int {
 	bound := 2
-	budget := 100 * time.Second
+	budget := 300 * time.Second
 	if tier == "thorough" {
 		bound = 3
 		budget = 60 * time.Minute
 	}
 	var jobs []concJob
+	// Scenarios with two threads are small enough for every interleaving to be executed; larger ones are cut at the
+	// preemption bound (the thorough tier tries them without a bound first, for a limited time).
+	allCap := 40 * time.Second
 	for _, cs := range c04Scenarios(tier) {
-		jobs = append(jobs, concJob{cs: cs, linear: true, bound: bound})
+		all := len(cs.Threads) == 2 || tier == "thorough"
+		if tier == "thorough" {
+			allCap = 4 * time.Minute
+		}
+		jobs = append(jobs, concJob{cs: cs, linear: true, bound: bound, all: all, allCap: allCap})
 	}
 	if sh, n, ok := parseShard(); ok {
 		runConcShard(jobs, sh, n, time.Now().Add(budget))
@@ -118,7 +125,7 @@ func C04(tier string) int {
 		"GOMAXPROCS=1 in explorer processes so that util.Scatter uses one worker per request",
 		fmt.Sprintf("explored with %d shard processes", runtime.NumCPU()),
 	}
-	return concFinish(run, results, err, "every interleaving of the scenario's requests with at most `bound_completed` preemptions, executed on the real ruler/locker/rules/badger under a cooperative scheduler; each complete execution's call/return history, verdict vector (signed / not signed) and decoded final records must be explained by one serial order compatible with real-time order; a scenario is non-trivial if different schedules produced different verdict vectors")
+	return concFinish(run, results, err, "every interleaving of the scenario's requests (scenarios marked all_interleavings in per_scenario: without any bound, one scheduling point per sync operation of the locker and per store operation; the others: with at most `bound_completed` preemptions), executed on the real ruler/locker/rules/badger under a cooperative scheduler; each complete execution's call/return history, verdict vector (signed / not signed) and decoded final records must be explained by one serial order compatible with real-time order; a scenario is non-trivial if different schedules produced different verdict vectors")
 }
 
 // replayConc re-executes a recorded schedule without the explorer.
